@@ -42,11 +42,11 @@ pub open spec fn cols(b: Seq<u64>, n: int) -> Seq<u64> decreases n {
 }
 pub open spec fn xor_blk(a: Seq<u64>, b: Seq<u64>) -> Seq<u64> { Seq::new(128, |i: int| a[i] ^ b[i]) }
 pub open spec fn zero_blk() -> Seq<u64> { Seq::new(128, |i: int| 0u64) }
-/// 3.5 compression function G(X, Y): R = X xor Y; P on every row of R gives Q; P on every column of Q gives Z; result Z xor R
+/// 3.5 compression function cG(X, Y): R = X xor Y; P on every row of R gives Q; P on every column of Q gives Z; result Z xor R
 #[verifier::opaque]
-pub open spec fn G(x: Seq<u64>, y: Seq<u64>) -> Seq<u64> { let r = xor_blk(x, y); xor_blk(cols(rows(r, 8), 8), r) }
+pub open spec fn cG(x: Seq<u64>, y: Seq<u64>) -> Seq<u64> { let r = xor_blk(x, y); xor_blk(cols(rows(r, 8), 8), r) }
 /// 3.4: version 0x13, passes after the first: the new block is XORed onto the one it replaces
-pub open spec fn G_xor(x: Seq<u64>, y: Seq<u64>, old_blk: Seq<u64>) -> Seq<u64> { xor_blk(G(x, y), old_blk) }
+pub open spec fn G_xor(x: Seq<u64>, y: Seq<u64>, old_blk: Seq<u64>) -> Seq<u64> { xor_blk(cG(x, y), old_blk) }
 
 // 3.4.2 mapping J1 to the reference block index, for the block at (pass, slice, index-in-segment) of a lane of q = 4 * seg blocks:
 // |W| = blocks of the referenced lane that are finished and still hold the values the reference may use:
@@ -69,7 +69,7 @@ pub open spec fn index_alpha_spec(seg: int, q: int, pass: int, slice: int, index
 // 3.2: memory geometry: m' = 4 * p * floor(m / 4p), q = m' / p columns per lane, segments of q / 4
 pub open spec fn seg_len(m: int, p: int) -> int { m / (4 * p) }
 // ---- 3.4: filling the memory matrix B[lane][column] (p lanes of q = 4 * seg columns), as a function on the whole matrix --------
-pub struct Cfg { pub p: int, pub seg: int, pub t: int, pub y: int, pub v: int, pub mprime: int }
+pub struct Cfg { pub p: int, pub seg: int, pub t: int, pub y: int, pub v: int, pub mprime: int, pub m: int }
 pub open spec fn lane_len(c: Cfg) -> int { 4 * c.seg }
 /// 3.4.1.3: Argon2i always, Argon2id in the first two slices of the first pass: data-independent addressing
 pub open spec fn data_indep(c: Cfg, pass: int, slice: int) -> bool { c.y == 1 || (c.y == 2 && pass == 0 && slice < 2) }
@@ -78,13 +78,13 @@ pub open spec fn addr_input(c: Cfg, pass: int, lane: int, slice: int, ctr: int) 
     Seq::new(128, |k: int| if k == 0 { pass as u64 } else if k == 1 { lane as u64 } else if k == 2 { slice as u64 } else if k == 3 { c.mprime as u64 }
                           else if k == 4 { c.t as u64 } else if k == 5 { c.y as u64 } else if k == 6 { ctr as u64 } else { 0u64 })
 }
-/// the counter-th address block of a segment: G(ZERO, G(ZERO, Z)), counter starting from 1
+/// the counter-th address block of a segment: cG(ZERO, cG(ZERO, Z)), counter starting from 1
 pub open spec fn addr_block(c: Cfg, pass: int, lane: int, slice: int, ctr: int) -> Seq<u64> {
-    G(zero_blk(), G(zero_blk(), addr_input(c, pass, lane, slice, ctr)))
+    cG(zero_blk(), cG(zero_blk(), addr_input(c, pass, lane, slice, ctr)))
 }
 /// J1 | J2 for the block at index i of the segment: the (i mod 128)-th word of address block i / 128 + 1
 pub open spec fn addr_word(c: Cfg, pass: int, lane: int, slice: int, i: int) -> u64 { addr_block(c, pass, lane, slice, i / 128 + 1)[i % 128] }
-/// one block: B[lane][col] = G(B[lane][col - 1], B[l][z]) (XORed onto its old value in version 0x13 after the first pass), col = slice * seg + i,
+/// one block: B[lane][col] = cG(B[lane][col - 1], B[l][z]) (XORed onto its old value in version 0x13 after the first pass), col = slice * seg + i,
 /// col - 1 taken modulo q; J1 | J2 = first word of the previous block (data-dependent) or the address word; l = J2 mod p except in the
 /// very first slice; z from J1 by 3.4.2
 pub open spec fn step_block(c: Cfg, mem: Seq<Seq<u64>>, pass: int, lane: int, slice: int, i: int) -> Seq<Seq<u64>> {
@@ -98,7 +98,7 @@ pub open spec fn step_block(c: Cfg, mem: Seq<Seq<u64>>, pass: int, lane: int, sl
     let rl = if pass == 0 && slice == 0 { lane } else { j2 % c.p };
     let z = index_alpha_spec(c.seg, q, pass, slice, i, j1, rl == lane);
     let refb = mem[rl * q + z];
-    let newb = if c.v == 0x10 || pass == 0 { G(mem[prev], refb) } else { G_xor(mem[prev], refb, mem[cur]) };
+    let newb = if c.v == 0x10 || pass == 0 { cG(mem[prev], refb) } else { G_xor(mem[prev], refb, mem[cur]) };
     mem.update(cur, newb)
 }
 /// the blocks start..n of one segment, in order
